@@ -416,6 +416,16 @@ func (cs *Contracts) parseFile(path, src string) error {
 				ae.Cond, ae.Body = b.X, b.Y
 			}
 			cur.AtEvals = append(cur.AtEvals, ae)
+		case "on-map-update":
+			f := strings.Fields(rest)
+			if len(f) < 2 {
+				return fmt.Errorf("%s:%d: on-map-update <field> [label:] <expr>", path, ln)
+			}
+			cl, err := parseClause(strings.TrimSpace(rest[len(f[0]):]))
+			if err != nil {
+				return fmt.Errorf("%s:%d: %v", path, ln, err)
+			}
+			cur.OnMapUpdates = append(cur.OnMapUpdates, &OnStore{Field: f[0], Label: cl.Label, Expr: cl.Expr, Text: cl.Text})
 		case "no-store":
 			cur.NoStores = append(cur.NoStores, strings.Fields(rest)...)
 		case "full-loop":
